@@ -492,6 +492,10 @@ def weave(src, vspecs, vacuity=False, split=None, isolate=()):
             while src[ls] in ' \t':
                 ls += 1
             edits.append(Edit(ls, '#[verifier::external_body] /*@@ISOLATED*/ ', -2))
+            # the body is also kept away from rustc's type checker (it may be the proof text in it, or the code, that no
+            # longer compiles inside verus!): cfg'd-out block + a diverging tail
+            edits.append(Edit(sig_end + 1, ' #[cfg(any())] {', -2))
+            edits.append(Edit(body_close, '} unimplemented!() ', 99))
             isolated.append(fnid)
             continue
         if vacuity and 'external_body' not in (e.get('attr') or ''):
